@@ -20,7 +20,7 @@ TECHNIQUE = 'runtime monitoring: table loader / template builder of the real cod
 RULE = ('exhaustive over Table B/D entries of the chosen versions (quick: 6 versions rotating with the seed + '
         'local tables; thorough: all 36 + local); random well-formed id lists (depth<=4, X<=63); undefined '
         'descriptor placements; master/local version selections 0..255; non-trivial = entry nests a sequence '
-        'or replication / list contains a replication; distinct by (version, id) / list hash')
+        'or replication / list contains a replication; distinct by (version, id) / list hash; descriptors in no table (incl. 0 00 000) inside lists, ids given as strings; the same list under two versions in one process; `lookup` and `info -t` output')
 ASSUMPTIONS = ['the bundled table files are the ground truth (not checked against WMO)',
                'documented fall-back: master table dir else 0; version dir else 33; local <centre>_<sub> else <centre>_0 else none']
 BUDGET = {'quick': 50, 'thorough': 500}
